@@ -116,6 +116,13 @@ const HELPERS: &[(&str, &str)] = &[
         "make-ictr",
         "(define (make-ictr k) (define n k) (define (bump) (set! n (+ n 1)) n) (bump) (lambda () (bump) n))",
     ),
+    (
+        // a let that is an operand (not a tail form) whose initialiser closes over the OUTER n
+        "make-l3",
+        "(define (make-l3 n) (car (cons (let ((n (+ n 100)) (get (lambda () n)) (put (lambda (v) (set! n v) v))) (lambda () (set! n (+ n 1)) (put (+ (get) 2)) (+ n (get)))) '())))",
+    ),
+    // an internal definition that carries the name of a parameter: one binding, not two
+    ("make-pctr", "(define (make-pctr n) (define n (+ n 10)) (lambda () (set! n (+ n 1)) n))"),
     ("make-bctr", "(define (make-bctr k) (begin (define n k) (lambda () (set! n (+ n 1)) n)))"),
     (
         "make-cctr",
@@ -1156,7 +1163,7 @@ impl Gen {
                 }
                 // ... or by the bodies of the bundled derived forms (begin, cond, when, or, and)
                 let which = *self.rng.pick(&[
-                    "make-late", "make-lctr", "make-l2", "make-bctr", "make-cctr", "make-wctr", "make-octr", "make-actr",
+                    "make-late", "make-lctr", "make-l2", "make-l3", "make-pctr", "make-bctr", "make-cctr", "make-wctr", "make-octr", "make-actr",
                 ]);
                 self.need(which);
                 let c = self.fresh("c");
@@ -1168,6 +1175,13 @@ impl Gen {
                     call(which, vec![int(k)])
                 };
                 self.emit(list(vec![sym("define"), sym(&c), sx]), &format!("mk-counter-{}", which), vec![c], true);
+                true
+            }
+            41 => {
+                // a global integer defined again: still one binding, which later assignments reach
+                let Some(g) = self.pick_name(Role::Int) else { return false };
+                let k = self.small_lit();
+                self.emit(list(vec![sym("define"), sym(&g), int(k)]), "redefine-int", vec![g], true);
                 true
             }
             40 => {
@@ -1365,10 +1379,15 @@ impl Gen {
                 self.need("f0");
                 self.need("f2");
                 self.need("fr");
-                let v = self.rng.upto(18);
+                let v = self.rng.upto(22);
                 let vn = self.ensure_vec();
                 (
                     match v {
+                        // a procedure applied where it is written
+                        18 => list(vec![list(vec![sym("lambda"), list(vec![sym("a"), sym("b")]), call("+", vec![sym("a"), sym("b")])]), int(1), int(2), int(3)]),
+                        19 => list(vec![list(vec![sym("lambda"), list(vec![sym("a")]), sym("a")])]),
+                        20 => list(vec![list(vec![sym("lambda"), list(vec![]), int(1)]), int(1)]),
+                        21 => list(vec![list(vec![sym("lambda"), Sx::Dotted(vec![sym("a"), sym("b")], Box::new(sym("r"))), sym("a")]), int(1)]),
                         9 => call("vector-set!", vec![sym(&vn), int(0)]),
                         10 => call("make-vector", vec![int(3)]),
                         11 => call("apply", vec![]),
@@ -2018,7 +2037,7 @@ pub fn generate_a(seed: u64, quick: bool, faults: bool) -> Value {
     let hash_seed = rng.next_u64() | 1;
     // swarm configuration
     let steps = if quick { rng.range(10, 40) } else { rng.range(10, 60) } as usize;
-    let nops = 41;
+    let nops = 42;
     let mut weights: Vec<u32> = (0..nops).map(|_| if rng.chance(1, 4) { 0 } else { rng.range(1, 6) as u32 }).collect();
     if weights.iter().all(|w| *w == 0) {
         weights[0] = 1;
